@@ -822,6 +822,198 @@ def run_C12(pid, tier, seed, model_ok=True):
         shutil.rmtree(work, ignore_errors=True)
 
 
+
+# ------------------------------------------------------------------ C13 (malformed inputs, call orders)
+def json_mutants(rnd, n):
+    import json as J
+    meta = lambda k: {"number": k, "size": 303, "hash": "ab" * 32, "signature": None}
+    pj = {"last_booted_patch": meta(1), "next_boot_patch": meta(2), "currently_booting_patch": None, "known_bad_patches": [3]}
+    ev = {"app_id": "a", "arch": "x86_64", "type": "__patch_install_failure__", "patch_number": 2, "platform": "linux",
+          "release_version": "1.0.0", "timestamp": 1, "message": None}
+    sj = {"release_version": "1.0.0", "queued_events": [ev]}
+    weird = [None, True, -1, 0, 2 ** 64 - 1, 2 ** 64, 1e30, -0.5, "", "x" * 3000, [], {}, [[[]]], "\u0000", {"number": "1"}, [1, 2], "1.0.0"]
+    outs = []
+    for _ in range(n):
+        which = rnd.choice(['pj', 'sj'])
+        doc = J.loads(J.dumps(pj if which == 'pj' else sj))
+        k = rnd.randrange(6)
+        if k == 0:      # replace a random field by a weird value
+            tgt = doc
+            if which == 'pj' and rnd.random() < 0.5:
+                tgt = doc[rnd.choice(['last_booted_patch', 'next_boot_patch'])]
+            elif which == 'sj' and rnd.random() < 0.5:
+                tgt = doc['queued_events'][0]
+            key = rnd.choice(list(tgt.keys()))
+            tgt[key] = rnd.choice(weird)
+            text = J.dumps(doc)
+        elif k == 1:    # drop a field
+            key = rnd.choice(list(doc.keys()))
+            del doc[key]
+            text = J.dumps(doc)
+        elif k == 2:    # truncate
+            text = J.dumps(doc, indent=2)
+            text = text[:rnd.randrange(len(text))]
+        elif k == 3:    # byte noise
+            b = bytearray(J.dumps(doc).encode())
+            for _ in range(rnd.randrange(1, 4)):
+                b[rnd.randrange(len(b))] = rnd.randrange(256)
+            outs.append((which, bytes(b)))
+            continue
+        elif k == 4:    # huge / duplicate
+            if which == 'pj':
+                doc['known_bad_patches'] = [rnd.choice([1, 2, 3, 2 ** 63]) for _ in range(rnd.randrange(0, 50))]
+                doc['next_boot_patch']['number'] = rnd.choice([0, 2 ** 64 - 1, 2 ** 32, 2])
+                doc['next_boot_patch']['size'] = rnd.choice([0, 2 ** 64 - 1, 303])
+            else:
+                doc['queued_events'] = [ev] * rnd.randrange(0, 40)
+            text = J.dumps(doc)
+        else:           # not an object at all
+            text = rnd.choice(['[]', 'null', '42', '"str"', '', '{', '{}', '﻿{}', '{"a":' * 50])
+        outs.append((which, text.encode('utf-8', 'surrogatepass') if isinstance(text, str) else text))
+    return outs
+
+
+def run_C13(pid, tier, seed, model_ok=True):
+    rnd = random.Random(seed)
+    ctx = Ctx(seed=seed)
+    work = os.path.join(CACHE, 'work-%s-%d' % (pid, os.getpid()))
+    try:
+        al = gen.Alphabet(ctx)
+        api = ['op nextnum', 'op nextpath', 'op curnum', 'op start', 'op success', 'op failure', 'op auto',
+               'op check - err', al.ops['ck2'][0], al.ops['u2'][0], al.ops['rb12'][0], al.ops['upnone'][0]]
+        # (a) structurally malformed storage: implementation only (the model's abstraction of unreadable
+        # JSON is JGarbage; these inputs probe the JSON/YAML/fs glue the model abstracts away)
+        hs_impl = []
+        nmal = 300 if tier == 'quick' else 6000
+        for i, (which, data) in enumerate(json_mutants(rnd, nmal)):
+            ctx.add_blob('mal%d' % i, data)
+            pre = al.seq(rnd.choice([PFX['good1pend2'], PFX['good1boot2'], PFX['boot1'], ()]))
+            tail = rnd.sample(api, 5)
+            hs_impl.append(('mal%d' % i, [al.init] + pre + ['op dmg raw%s @mal%d' % (which, i)] + tail + ['op kill', al.init] + rnd.sample(api, 4)))
+        fsd = ['op dmg artisfile 2', 'op dmg artfileisdir 2', 'op dmg patchesisfile', 'op dmg pjisdir', 'op dmg artisfile 1', 'op dmg artfileisdir 1']
+        for i, dmg in enumerate(fsd):
+            for pk in ('good1pend2', 'good1boot2', 'empty'):
+                for t in range(4):
+                    hs_impl.append(('fs%d_%s_%d' % (i, pk, t), [al.init] + al.seq(PFX[pk]) + [dmg] + rnd.sample(api, 6) + ['op kill', al.init] + rnd.sample(api, 5)))
+        yamls = ['', 'app_id: 1', 'app_id: [a, b]', 'app_id: a\nchannel: {x: 1}', 'app_id: a\nauto_update: maybe', ': : :', 'app_id: a\nbase_url: 7',
+                 'app_id: "' + 'x' * 5000 + '"', '\tapp_id: a', 'app_id: a\napp_id: b', '- a\n- b', 'app_id: a\npatch_public_key: ""', '&a [*a]',
+                 'app_id: a\nunknown_field: {deep: [1,2,{x: y}]}', 'app_id: ~', 'app_id: a\nchannel: ~']
+        if tier == 'thorough':
+            for _ in range(300):
+                yamls.append(''.join(rnd.choice('app_id: \n-[]{}&*!|>\'"%@`xyz0 1,#\t') for _ in range(rnd.randrange(1, 60))))
+        for i, y in enumerate(yamls):
+            init = 'op init %s raw:%s t' % (hx(REL1), y.encode().hex() or 'e')
+            hs_impl.append(('yaml%d' % i, [init] + rnd.sample(api, 4) + [al.init] + rnd.sample(api, 3)))
+        # (b) extreme values through the normal op language: model AND implementation
+        hs_both = []
+        big = 2 ** 64 - 1
+        h2 = ctx.p['2']['hash']
+        offers = [(0, h2), (big, h2), (2 ** 63, h2), (2, ''), (2, 'z' * 64), (2, h2 * 50), (2, 'AB' * 32)]
+        for i, (n, h) in enumerate(offers):
+            for dlb in ('@dl2', '@junkdl', '@empty', 'err'):
+                ops = [al.init, 'op update - %s %s' % (resp(True, (n, h, 'http://dl/x', None), [big, 0, n]), dlb), 'op nextnum', 'op nextpath',
+                       'op start', 'op curnum', 'op failure', 'op check - %s' % resp(True, (n, h, 'u', None), None), 'op kill', al.init, 'op nextnum']
+                hs_both.append(('ext%d_%s' % (i, dlb.strip('@')), ops))
+        ctx.zdec.append(('empty', 'empty'))
+        labels = ['q', 'p', 'c', 's', 'ok', 'fail', 'R', 'u1', 'u2', 'rb1', 'ck2', 'uj2', 'uh3', 'upnone', 'i2', 'i2bad', 'auto', 'dF1', 'dD2', 'dPg', 'dSg', 'dJ', 'RV']
+        hs_both += gen.random_walks(al, labels, [1] * len(labels), 150 if tier == 'quick' else 5000, (10, 50), rnd, name='ord', conformant=False, stale=True)
+        # calls before any init
+        hs_both.append(('noinit', list(api) + [al.init] + list(api)))
+        header = ctx.header()
+        model, impl, extras = run_both(header, hs_both, work, impl_only=not model_ok)
+        _, impl2, extras2 = run_both(header, hs_impl, work + 'b', impl_only=True)
+        opsof = dict(hs_both + hs_impl)
+        divs, fails = [], []
+        if model_ok:
+            for (h, idx, ml, il) in diff_traces(model, impl):
+                divs.append((h, idx, ml, il, opsof[h], header))
+        evals = 0
+        distinct = set()
+        for name, ops in hs_both + hs_impl:
+            tr = (impl if name in impl else impl2).get(name)
+            nops = len([o for o in ops if o.startswith('op ')])
+            if tr is None or len(tr) != nops:
+                fails.append((name, len(tr or []), 'C13: the process died or a call did not return (got %d of %d results)' % (len(tr or []), nops), ops, header))
+                continue
+            for o, l in zip([o for o in ops if o.startswith('op ')], tr):
+                evals += 1
+                out = l.split(' ')[0][4:]
+                k = o.split()[1]
+                dom = {'nextnum': r'^\d+$', 'curnum': r'^\d+$', 'nextpath': r'^(null|path:\d+)$', 'init': r'^(true|false)$', 'auto': r'^(true|false)$',
+                       'check': r'^(true|false)$', 'update': r'^(-1|0|1|3)$'}.get(k, r'^unit$')
+                if not re.match(dom, out):
+                    fails.append((name, 0, 'C13: `%s` returned %s, outside its documented domain' % (k, out), ops, header))
+                distinct.add((k, out, l.split(' pj=')[1][:1]))
+        for x in extras + extras2:
+            if 'PANIC-HOOK' in x or 'CRASH' in x:
+                fails.append(('harness', 0, 'C13: ' + x[:300], ['op nextnum'], header))
+        extras = [x for x in extras + extras2 if 'PANIC-HOOK' not in x and 'CRASH' not in x]
+        samples = [{'history': hs_impl[0][0], 'ops': [o[:100] for o in hs_impl[0][1][:8]]}, {'history': hs_both[0][0], 'ops': [o[:100] for o in hs_both[0][1][:6]]}]
+        return dict(evaluations=evals, distinct=len(distinct), samples=samples, divergences=divs, monitor_fail=fails,
+                    rule='malformed state.json / patches_state.json (typed mutants, truncation, byte noise, huge values), files where directories are expected and vice versa, malformed YAML, extreme patch numbers / hashes / downloads, unconformant random call orders incl. calls before init; a panic hook on every thread + process exit status; every output checked against its documented domain; non-trivial = distinct (call, output, state-file kind)',
+                    dist={'malformed_histories': len(hs_impl), 'model_compared_histories': len(hs_both)}, extras=extras, traces=len(impl) + len(impl2))
+    finally:
+        ctx.cleanup()
+        shutil.rmtree(work, ignore_errors=True)
+        shutil.rmtree(work + 'b', ignore_errors=True)
+
+
+# ------------------------------------------------------------------ C15 (ABI tables, symbols, memory)
+def run_C15(pid, tier, seed, model_ok=True):
+    rnd = random.Random(seed)
+    fails, divs, extras = [], [], []
+    header = ['base @base']
+    # exported symbols of the cdylib built from the current tree
+    tdir = os.path.join(CACHE, 'repo-target')
+    p = sh('timeout 1500 cargo build --offline -p updater 2>&1', cwd=REPO, env=dict(ENVV, CARGO_TARGET_DIR=tdir), timeout=1600)
+    so = os.path.join(tdir, 'debug', 'libupdater.so')
+    syms = set()
+    if p.returncode != 0 or not os.path.exists(so):
+        extras.append('cdylib build failed: ' + p.stdout[-500:])
+    else:
+        out = sh(['nm', '-D', '--defined-only', so]).stdout
+        syms = set(l.split()[-1] for l in out.splitlines() if ' T ' in l and 'shorebird_' in l)
+    tbl = open(os.path.join(COQ, 'gen', 'AbiTables.v')).read()
+    rust_names = set(re.findall(r'\("(shorebird_\w+)"', tbl.split('Definition header_fns')[0]))
+    if syms and syms != rust_names:
+        fails.append(('symbols', 0, 'C15: exported symbols differ from the prototypes: only in library %s, only in tables %s' % (sorted(syms - rust_names), sorted(rust_names - syms)), ['op nextnum'], header))
+    # status codes provoked through the C API + ownership under valgrind
+    ctx = Ctx(seed=seed)
+    work = os.path.join(CACHE, 'work-%s-%d' % (pid, os.getpid()))
+    try:
+        al = gen.Alphabet(ctx)
+        hs = [('codes', [al.init] + al.seq(['u1', 'u1', 'uperr', 'udl2', 'uh2', 'upnone', 's', 'fail', 'u1', 'p', 'q', 'u2', 'p', 'p', 'R', 'p']) + ['op update - err err'])]
+        hs.append(('codes_noinit', ['op update - err err', 'op nextpath', al.init, 'op nextpath']))
+        model, impl, ex = run_both(ctx.header(), hs, work, impl_only=not model_ok)
+        extras += ex
+        if model_ok:
+            for (h, idx, ml, il) in diff_traces(model, impl):
+                divs.append((h, idx, ml, il, dict(hs)[h], ctx.header()))
+        seen = set()
+        for h in impl:
+            for l in impl[h]:
+                seen.add(l.split(' ')[0][4:])
+        for code in ('-1', '0', '1', '3'):
+            if code not in seen:
+                fails.append(('codes', 0, 'C15: status %s was not delivered through the C API by the scenario that should produce it' % code, hs[0][1], ctx.header()))
+        f = os.path.join(work, 'vg.ops')
+        os.makedirs(work, exist_ok=True)
+        write_opfile(f, ctx.header(), hs)
+        vg = sh(['valgrind', '--error-exitcode=9', '--leak-check=no', '-q', UVH, 'replay', f, os.path.join(work, 'vgw')], timeout=600)
+        if vg.returncode == 9:
+            fails.append(('valgrind', 0, 'C15: memcheck reports an invalid free / access on strings or results returned by the library: ' + vg.stderr[-600:], hs[0][1], ctx.header()))
+        elif vg.returncode != 0:
+            extras.append('valgrind run failed rc=%d %s' % (vg.returncode, vg.stderr[-300:]))
+    finally:
+        ctx.cleanup()
+        shutil.rmtree(work, ignore_errors=True)
+    nent = len(re.findall(r'^\s+\("', tbl, flags=re.M))
+    return dict(evaluations=nent + len(syms) + 20, distinct=nent, samples=[{'exported_symbols': sorted(syms)[:6]}, {'table_rows': nent}],
+                divergences=divs, monitor_fail=fails,
+                rule='tables regenerated from c_api/mod.rs, updater.rs, include/updater.h and the Dart bindings (every exported prototype, repr(C) struct, SHOREBIRD_* constant, UpdateStatus variant); nm -D of the cdylib built from the current tree; every status code provoked through the C API; one scenario under valgrind memcheck; non-trivial = table rows',
+                dist={'symbols': len(syms)}, extras=extras, traces=2)
+
+
 def mk(build, mons, trig, rule, **kw):
     d = dict(mons=mons, run=lambda pid, tier, seed, model_ok=True: run_lifecycle(pid, tier, seed, build, mons, trig, rule, model_ok=model_ok))
     d.update(kw)
@@ -829,6 +1021,8 @@ def mk(build, mons, trig, rule, **kw):
 
 
 PROPS = {
+    'C13': dict(mons=[], run=run_C13, assumptions=['panics inside dependencies (serde, zstd, ring, std thread spawn) are only exercised, never proved absent']),
+    'C15': dict(mons=[], run=run_C15, assumptions=['allocator behaviour is runtime: exercised under valgrind memcheck on one scenario per run']),
     'C12': dict(mons=[], run=run_C12, assumptions=['wall-clock promptness is runtime behaviour: the check enforces a 5 s bound on the hung-connection scenarios and the structural trace properties only']),
     'C11': dict(mons=[], run=run_C11, assumptions=['interleavings at the granularity of config-mutex acquisitions (the only shared state is guarded by it); network callbacks run unlocked and touch no shared state']),
     'C16': dict(mons=[], run=run_C16,
